@@ -719,7 +719,25 @@ func main() {
 														tbl[0] = []string{constStr(tv.Value)}
 													}
 												case "StoreUpgrades":
-													if su, ok := kv.Value.(*ast.CompositeLit); ok {
+													if su, ok := kv.Value.(*ast.CompositeLit); !ok {
+														// not a literal: a reference to another release's descriptor is resolved below,
+														// anything else is reported as such (and fails every theorem about the table)
+														ref := ""
+														if s1, ok := kv.Value.(*ast.SelectorExpr); ok && s1.Sel.Name == "StoreUpgrades" {
+															if s2, ok := s1.X.(*ast.SelectorExpr); ok && s2.Sel.Name == "Upgrade" {
+																if id, ok := s2.X.(*ast.Ident); ok {
+																	if pn, ok := p.TypesInfo.Uses[id].(*types.PkgName); ok {
+																		ref = pn.Imported().Name()
+																	}
+																}
+															}
+														}
+														if ref != "" {
+															tbl[1] = []string{"<ref:" + ref + ">"}
+														} else {
+															tbl[1] = []string{"<unsupported:" + exprStr(p.Fset, kv.Value) + ">"}
+														}
+													} else {
 														for _, e2 := range su.Elts {
 															kv2 := e2.(*ast.KeyValueExpr)
 															switch exprStr(p.Fset, kv2.Key) {
@@ -862,6 +880,13 @@ func main() {
 				if ast.IsExported(m) {
 					o.lockPaths[m] = lockPaths(methodsOfKS, m, 0)
 				}
+			}
+		}
+	}
+	for _, t := range upgradeVars {
+		if len(t[1]) == 1 && strings.HasPrefix(t[1][0], "<ref:") {
+			if src, ok := upgradeVars[strings.TrimSuffix(strings.TrimPrefix(t[1][0], "<ref:"), ">")]; ok && !(len(src[1]) == 1 && strings.HasPrefix(src[1][0], "<ref:")) {
+				t[1], t[2] = append([]string{}, src[1]...), append([]string{}, src[2]...)
 			}
 		}
 	}
